@@ -756,3 +756,15 @@ def m_get_key(I, st, info, args, depth):
     base = deref(I, st, recv)
     nm = getattr(base, "name", repr(base))
     return ret(st, Seq("key(%s)" % nm, Aff.sym("len(key(%s))" % nm), kind="str"))
+
+
+@model(r"^iso8601::(datetime::)?datetime$")
+def m_iso8601(I, st, info, args, depth):
+    v = deref(I, st, args[0])
+    nm = getattr(v, "name", repr(v))
+    s2 = st.clone()
+    s2.facts[("iso8601", nm)] = True
+    s2.cond.append("iso8601::datetime(%s) is Ok" % nm)
+    st.facts[("iso8601", nm)] = False
+    st.cond.append("iso8601::datetime(%s) is Err" % nm)
+    return [(s2, "return", ok(Sym("DateTime(%s)" % nm))), (st, "return", err(Sym("iso8601 error")))]
